@@ -254,9 +254,19 @@ def run_history(case):
 # matrices
 # ----------------------------------------------------------------------------------------------------------------------
 
-def make_matrix(kind, n, values):
-    """values: n*n numbers. kinds: general, symmetric, rate (zero row sums), symrate."""
-    A = np.array(values[:n * n], dtype=float).reshape(n, n)
+def make_matrix(kind, n, values, scale=1.0, nearly=0.0):
+    """values: n*n numbers. kinds: general, symmetric, rate (zero row sums), symrate. scale: overall magnitude;
+    nearly: relative perturbation that makes a symmetric matrix only nearly symmetric."""
+    A = np.array(values[:n * n], dtype=float).reshape(n, n) * scale
+    if nearly and kind in ("symmetric", "symrate"):
+        A = np.triu(A) + np.triu(A, 1).T
+        pert = np.array([((i * 7 + j * 13) % 11 - 5) / 5.0 for i in range(n) for j in range(n)]).reshape(n, n)
+        A = A * (1 + nearly * np.triu(pert, 1))
+        if kind == "symrate":
+            A = np.abs(A)
+            np.fill_diagonal(A, 0)
+            A = A - np.diag(A.sum(axis=1))
+        return A
     if kind in ("symmetric", "symrate"):
         A = np.triu(A) + np.triu(A, 1).T
     if kind in ("rate", "symrate"):
@@ -325,13 +335,14 @@ def _machine_shard(arg):
                 self.h = None
 
             @initialize(n=st.integers(2, 9), kind=st.sampled_from(["general", "symmetric", "rate", "symrate"]),
-                        integral=st.booleans(), data=st.data())
-            def init(self, n, kind, integral, data):
+                        integral=st.booleans(), scale=st.sampled_from([1.0, 1.0, 1e-9, 1e-13, 1e7]),
+                        nearly=st.sampled_from([0.0, 0.0, 1e-6, 1e-9]), data=st.data())
+            def init(self, n, kind, integral, scale, nearly, data):
                 el = st.integers(-20, 20).map(float) if integral else st.floats(-100, 100, allow_nan=False, width=32)
                 vals = data.draw(st.lists(el, min_size=n * n, max_size=n * n))
                 self.n = n
-                self.kind = kind
-                self.h = History(make_matrix(kind, n, vals))
+                self.kind = kind + ("" if scale == 1.0 else f"*{scale:g}") + ("" if not nearly else f"~{nearly:g}")
+                self.h = History(make_matrix(kind, n, vals, scale=scale, nearly=nearly))
 
             def _case(self):
                 return {"M0": self.h.M0.tolist(), "ops": self.h.ops, "matrix_kind": self.kind}
@@ -364,7 +375,9 @@ def _machine_shard(arg):
                 if self.h is not None and self.h.ops:
                     res.case(sample=self._case(),
                              nontrivial=bool(self.h.flags & {"merge_after_delete", "merge_names_merged_cell"}),
-                             key=self._case(), classes=["machine", "matrix=" + self.kind] + sorted(self.h.flags))
+                             key=self._case(), classes=["machine", "matrix=" + self.kind.split("*")[0].split("~")[0]]
+                             + (["matrix_tiny_or_huge_magnitude"] if "*" in self.kind else [])
+                             + (["matrix_nearly_symmetric"] if "~" in self.kind else []) + sorted(self.h.flags))
         return Lumping
 
     res = Result()
